@@ -433,10 +433,9 @@ func (e *Engine) findIndicesAdaptiveAtWithState(haystack []byte, at int, state *
 		endPos := e.dfa.FindAt(state.dfaCache, haystack, at)
 		if endPos != -1 {
 			// Use estimated start for O(m) search
+			// The search for the exact bounds must start where the caller asked: starting
+			// "at most 100 bytes before the end" lost or truncated every match longer than that.
 			estimatedStart := at
-			if endPos > at+100 {
-				estimatedStart = endPos - 100
-			}
 			return state.pikevm.SearchAt(haystack, estimatedStart)
 		}
 		size, capacity, _, _, _ := e.dfa.CacheStats(state.dfaCache)
@@ -491,10 +490,9 @@ func (e *Engine) findIndicesAdaptive(haystack []byte) (int, int, bool) {
 		if endPos != -1 {
 			e.putSearchState(state)
 			// Use estimated start position for O(m) search instead of O(n)
+			// The search for the exact bounds must start where the caller asked: starting
+			// "at most 100 bytes before the end" lost or truncated every match longer than that.
 			estimatedStart := 0
-			if endPos > 100 {
-				estimatedStart = endPos - 100
-			}
 			return e.pikevm.SearchAt(haystack, estimatedStart)
 		}
 		size, capacity, _, _, _ := e.dfa.CacheStats(state.dfaCache)
@@ -537,10 +535,9 @@ func (e *Engine) findIndicesAdaptiveAt(haystack []byte, at int) (int, int, bool)
 		if endPos != -1 {
 			e.putSearchState(state)
 			// Use estimated start for O(m) search
+			// The search for the exact bounds must start where the caller asked: starting
+			// "at most 100 bytes before the end" lost or truncated every match longer than that.
 			estimatedStart := at
-			if endPos > at+100 {
-				estimatedStart = endPos - 100
-			}
 			return e.pikevm.SearchAt(haystack, estimatedStart)
 		}
 		size, capacity, _, _, _ := e.dfa.CacheStats(state.dfaCache)
